@@ -77,6 +77,7 @@ def make_world(seed_rng_key, run):
     other = sorted((c, max(0, s), max(e, max(0, s) + 1), g) for c, s, e, g in other)
     w["other"] = make_ga(other, extras=("gene",))
     w["filters"] = [["ci", "cn"], ["sem"], ["cn", "ampdel"], ["ampdel", "ci"], None, []][int(rng.integers(0, 6))]
+    w["ci_filters"] = [["ci", "cn"], ["sem"], ["ampdel", "ci"], ["sem", "cn"]][int(rng.integers(0, 4))]
     w["thresholds"] = [-1.1, -0.25, 0.2, 0.7]
     w["ignore"] = [("-", ".", "CGH"), ["-", "Antitarget"], ("CGH",)][int(rng.integers(0, 3))]
     w["loc_stats"] = ["mean", "median", "mode", "p_ttest"]
@@ -95,6 +96,12 @@ METHODS = ["none", "haar", "hmm", "hmm-tumor", "hmm-germline"]
 def plan(rng):
     n = int(rng.integers(1, 5))
     steps = []
+    if rng.random() < 0.25:
+        # the canonical pipeline: the filter list (with ci/sem entries) reaches do_call on a table that has the ci/sem columns
+        return [("segment", {"method": METHODS[int(rng.integers(0, 5))], "skip_low": bool(rng.integers(0, 2)), "skip_outliers": int(rng.choice([0, 10]))}),
+                ("segmetrics", {"bootstraps": int(rng.choice([20, 50])), "alpha": float(rng.choice([0.05, 0.2])), "smoothed": bool(rng.random() < 0.5)}),
+                ("call", {"method": ["threshold", "clonal"][int(rng.integers(0, 2))], "purity": [None, 0.7][int(rng.integers(0, 2))], "ploidy": 2, "force_filters": True}),
+                [("export-bed", {"show": "all"}), ("genemetrics", {}), ("export-vcf", {})][int(rng.integers(0, 3))]]
     if rng.random() < 0.75:
         steps.append(("segment", {"method": METHODS[int(rng.integers(0, 5))], "skip_low": bool(rng.integers(0, 2)), "skip_outliers": int(rng.choice([0, 10]))}))
     while len(steps) < n:
@@ -150,10 +157,14 @@ def execute(w, step, params, procs):
         w["segs"] = SM.do_segmetrics(cnr, segs, w["loc_stats"], w["spread_stats"], w["interval_stats"], params["alpha"], params["bootstraps"], params["smoothed"])
     elif step == "call" and segs is not None:
         flt = w["filters"]
+        if params.get("force_filters"):
+            flt = w["ci_filters"]
         if flt and params["method"] == "none" and any(f in ("cn", "ampdel") for f in flt):
             flt = None
         if flt and not all(c in segs for c in ("ci_lo", "ci_hi", "sem")) and any(f in ("ci", "sem") for f in flt):
             flt = [f for f in flt if f not in ("ci", "sem")] if False else None
+        if flt and any(f in ("ci", "sem") for f in flt):
+            rt.current().extra["call-with-ci-or-sem-filter"] += 1
         w["called"] = CL.do_call(segs, None, params["method"], params["ploidy"], params["purity"] if params["method"] == "clonal" else None, False, True, None, flt, w["thresholds"])
     elif step == "genemetrics":
         RP.do_genemetrics(cnr, segs, 0.2, 2, False, False, True)
@@ -306,7 +317,11 @@ def case_write(run, i):
 WORKLOADS = {"sequence": (_n, case_sequence), "everywhere": (_n_every, case_everywhere, True), "write": (_n_write, case_write)}
 _Q = {"purity|held": 3000, "core.ensure_path|held": 40, "writers[k-writes-k-files]|held": 20,
       "extra:agreed-across-worker-counts:segment": 40, "extra:agreed-across-rng-states:segmetrics": 5, "extra:agreed-across-rng-states:fix": 5,
-      "extra:agreed-across-call-histories:segment": 30, "extra:cross-process-groups-compared": 40}
+      "extra:agreed-across-call-histories:segment": 30, "extra:call-with-ci-or-sem-filter": 60, "extra:cross-process-groups-compared": 40}
+for _op, _min in (("segment", 200), ("segmetrics", 100), ("call", 100), ("fix", 60), ("genemetrics", 40), ("bintest", 15), ("breaks", 8), ("metrics", 15), ("export-bed", 30),
+                  ("export-vcf", 30), ("export-theta", 6), ("target", 20), ("antitarget", 20), ("ga.merge", 8), ("ga.flatten", 8), ("ga.subtract", 20), ("ga.intersection", 5),
+                  ("ga.subdivide", 40), ("ga.resize_ranges", 40), ("ga.by_arm", 500), ("cna.by_gene", 100), ("cna.center_all", 100)):
+    _Q[f"class:op:{_op}"] = _min
 QUOTAS = {"quick": _Q, "thorough": {k: v * (6 if "cross" not in k else 3) for k, v in _Q.items()}}
 
 
